@@ -516,3 +516,115 @@ func (r *Run) RejectsAre(rule, fnRef string, min int, pats ...string) {
 		r.Fail(rule, fnRef+": error returns", r.P.Pos(fn.Pos()), fmt.Sprintf("expected >= %d error returns, found %d", min, n))
 	}
 }
+
+// RequireBranchOnEverySuccessPath: some branch whose condition (either polarity)
+// matches condPat dominates every success exit of fnRef (the condition is evaluated
+// on every accepting path).
+func (r *Run) RequireBranchOnEverySuccessPath(rule, fnRef, name, condPat string) {
+	fn := r.fn(rule, fnRef)
+	if fn == nil {
+		return
+	}
+	ff := r.P.Facts(fn)
+	exits, _ := ff.SuccessFacts()
+	for _, b := range fn.Blocks {
+		iff := ifOf(b)
+		if iff == nil {
+			continue
+		}
+		m := false
+		for _, a := range append(ff.condAtomsX(iff.Cond, true), ff.condAtomsX(iff.Cond, false)...) {
+			if glob(condPat, a) {
+				m = true
+			}
+		}
+		if !m {
+			continue
+		}
+		all := len(exits) > 0
+		for _, ex := range exits {
+			if !b.Dominates(ex.Block) {
+				all = false
+			}
+		}
+		if all {
+			r.Pass(rule, fnRef+": "+name, r.P.Pos(ff.condPos(b)), "branch on "+condPat+" dominates every success exit")
+			return
+		}
+	}
+	r.Fail(rule, fnRef+": "+name, r.P.Pos(fn.Pos()), "no branch on "+condPat+" is evaluated on every accepting path")
+}
+
+// RequireFollows: after the call to `first` succeeded (its ok edge), every path to a
+// function exit passes through a call matching `then` whose first argument term
+// starts with argPrefix ("" = any).  (must-pass-through / post-dominance, engine E4)
+func (r *Run) RequireFollows(rule, fnRef, first, then, argPrefix, name string, allowedExit ...string) {
+	fn := r.fn(rule, fnRef)
+	if fn == nil {
+		return
+	}
+	ff := r.P.Facts(fn)
+	var targets []*ssa.BasicBlock
+	for _, cs := range r.CallSites(fn, then) {
+		if argPrefix == "" || strings.HasPrefix(r.argTerm(cs, 0), argPrefix) {
+			targets = append(targets, cs.Block())
+		}
+	}
+	firsts := r.CallSites(fn, first)
+	if len(firsts) == 0 || len(targets) == 0 {
+		r.Fail(rule, fnRef+": "+name, r.P.Pos(fn.Pos()), fmt.Sprintf("anchor-unresolved: %d calls to %s, %d matching calls to %s", len(firsts), first, len(targets), then))
+		return
+	}
+	isTarget := map[*ssa.BasicBlock]bool{}
+	for _, t := range targets {
+		isTarget[t] = true
+	}
+	for _, cs := range firsts {
+		// success successor of the call's block
+		B := cs.Block()
+		start := B
+		if iff := ifOf(B); iff != nil {
+			if v, ok := cs.(ssa.Value); ok {
+				okAtom := "ok(" + ff.callTerm(v) + ")"
+				for i, s := range B.Succs {
+					for _, a := range ff.condAtomsX(iff.Cond, i == 0) {
+						if a == okAtom {
+							start = s
+						}
+					}
+				}
+			}
+		}
+		// search for an exit reachable from start without passing a target block
+		seen := map[*ssa.BasicBlock]bool{}
+		stack := []*ssa.BasicBlock{start}
+		var escape *ssa.BasicBlock
+		for len(stack) > 0 && escape == nil {
+			n := stack[len(stack)-1]
+			stack = stack[:len(stack)-1]
+			if seen[n] || isTarget[n] {
+				continue
+			}
+			seen[n] = true
+			if len(n.Succs) == 0 {
+				if _, isRet := n.Instrs[len(n.Instrs)-1].(*ssa.Return); isRet {
+					var fs []string
+					for _, a := range ff.Must(n) {
+						fs = append(fs, a.S)
+					}
+					if _, ok := matchAny(allowedExit, fs); !ok {
+						escape = n
+					}
+				}
+				continue
+			}
+			stack = append(stack, n.Succs...)
+		}
+		pos := r.P.Pos(cs.Pos())
+		if escape != nil {
+			r.Check(rule, fnRef+": "+name, pos, false, "after "+first+" succeeded the function can return (at "+r.P.Pos(escape.Instrs[len(escape.Instrs)-1].Pos())+") without "+then)
+		} else {
+			r.Check(rule, fnRef+": "+name, pos, true, "every exit after a successful "+first+" passes "+then)
+		}
+	}
+}
